@@ -8,6 +8,7 @@ C05, parser = specification: facts about the specification alone (Spec/InitSpec.
   the cursor at child `i+1` (`cursorIn`), `descend`/`desigPaths` only extend paths.
 -/
 import ChibiVerif.Lemmas.InitPathLemmas
+import ChibiVerif.Lemmas.InitFuelLemmas
 
 namespace ChibiVerif.InitSpec
 open ChibiVerif.Init
@@ -298,5 +299,398 @@ theorem initItem_tok (g : Nat) (root : Ty) (top : Bool) (obj : Init) (p : List N
     cases tok <;> first | exact absurd rfl hb |
       (simp [hd, ok_bind, List.mapM_cons, tokFlags, isStrTok, bind, Except.bind, pure, Except.pure]
        cases modifyAt root top (storeTok root top _ q) root [] q obj <;> rfl)
+
+
+theorem initItem_brace (g : Nat) (root : Ty) (top : Bool) (obj : Init) (p : List Nat) (inner : List ITok) (fl : Flags) {t : Ty}
+    (ht : subTy root p = some t) (hg : growable root top p = false) :
+    initItem g root top obj [p] (.lbrace :: inner) fl =
+      (initList g t false (braceStart t) (firstCursor t) inner true Flags.none >>= fun sub =>
+        modifyAt root top (fun _ _ => pure (unflex sub.obj)) root [] p obj >>= fun obj' =>
+          initList g root top obj' (next root top p.reverse) sub.rest false
+            ((fl.join ⟨touched obj p, exprAbove obj p, false⟩).join sub.fl)) := by
+  unfold initItem initItemWith
+  simp only [ht, hg, Bool.false_eq_true, ↓reduceIte, pure_bind']
+  cases initList g t false (braceStart t) (firstCursor t) inner true Flags.none with
+  | error e => rfl
+  | ok sub =>
+    simp only [ok_bind, List.any_cons, List.any_nil, Bool.or_false, List.length_singleton, Nat.lt_irrefl, decide_false,
+      List.foldlM_cons, List.foldlM_nil]
+    cases modifyAt root top (fun _ _ => pure (unflex sub.obj)) root [] p obj <;> rfl
+
+theorem initItem_excess (g : Nat) (root : Ty) (top : Bool) (obj : Init) (toks : List ITok) (fl : Flags) :
+    initItem g root top obj [] toks fl =
+      (skipExcess (toks.length + 1) toks >>= fun r => initList g root top obj none r false fl) := rfl
+
+theorem initItem_nil (g : Nat) (root : Ty) (top : Bool) (obj : Init) (p : List Nat) (fl : Flags) :
+    initItem g root top obj [p] [] fl = .error (.diag "expected an expression") := rfl
+
+/-- p20, one level: an initializer without braces that does not fit the aggregate at `p` as a whole goes to its first subobject -/
+theorem initItem_descend_step {g : Nat} {root : Ty} {top : Bool} {obj : Init} {p : List Nat} {tok : ITok} {r : List ITok} {fl : Flags}
+    {t : Ty} {k : Nat} (hb : tok ≠ .lbrace) (ht : subTy root p = some t) (hs : stopsAt t tok = false)
+    (hk : firstSub root top p t = some k) :
+    Imp (initItem g root top obj [p] (tok :: r) fl) (initItem g root top obj [p ++ [k]] (tok :: r) fl) := by
+  intro res hres _
+  rw [initItem_tok _ _ _ _ _ _ _ _ hb] at hres ⊢
+  obtain ⟨q, hq, hres⟩ := bind_eq_ok hres
+  have h1 : descend root top tok (p.length + root.nodes + 1) (p ++ [k]) = .ok q := by
+    rw [← descend_step _ ht hs hk]; exact hq
+  have h2 : descend root top tok ((p ++ [k]).length + root.nodes + 2) (p ++ [k]) = .ok q :=
+    descend_mono_le root top tok (by simp; omega) h1
+  rw [h2, ok_bind]; exact hres
+
+theorem initItem_descend_none {g : Nat} {root : Ty} {top : Bool} {obj : Init} {p : List Nat} {tok : ITok} {r : List ITok} {fl : Flags}
+    {t : Ty} (hb : tok ≠ .lbrace) (ht : subTy root p = some t) (hs : stopsAt t tok = false)
+    (hk : firstSub root top p t = none) : ∃ e, initItem g root top obj [p] (tok :: r) fl = .error e := by
+  rw [initItem_tok _ _ _ _ _ _ _ _ hb]
+  obtain ⟨e, he⟩ := descend_none (p.length + root.nodes + 2) ht hs hk
+  exact ⟨e, by rw [he]; rfl⟩
+
+/-- an initializer that stops at `p` itself -/
+theorem initItem_stop {g : Nat} {root : Ty} {top : Bool} {obj : Init} {p : List Nat} {tok : ITok} {r : List ITok} {fl : Flags}
+    {t : Ty} (hb : tok ≠ .lbrace) (ht : subTy root p = some t) (hs : stopsAt t tok = true) :
+    initItem g root top obj [p] (tok :: r) fl =
+      (modifyAt root top (storeTok root top tok p) root [] p obj >>= fun obj' =>
+          initList g root top obj' (next root top p.reverse) r false (fl.join (tokFlags root obj tok p))) := by
+  rw [initItem_tok _ _ _ _ _ _ _ _ hb, show p.length + root.nodes + 2 = (p.length + root.nodes + 1) + 1 from rfl,
+    descend_stop _ ht hs, ok_bind]
+
+/-! ### tokens that cannot start an initializer -/
+
+def startable : ITok → Bool
+  | .expr _ => true
+  | .str .. => true
+  | .lbrace => true
+  | _ => false
+
+theorem bind_error_of {α β : Type} {x : Except Fail α} (k : α → Except Fail β) (h : ∃ e, x = .error e) :
+    ∃ e, (x >>= k) = .error e := by
+  obtain ⟨e, he⟩ := h; exact ⟨e, by rw [he]; rfl⟩
+
+theorem modifyAt_error (root : Ty) (top : Bool) (f : Ty → Init → Except Fail Init) (hf : ∀ t old, ∃ e, f t old = .error e) :
+    ∀ (q : List Nat) (t0 : Ty) (done : List Nat) (obj : Init), ∃ e, modifyAt root top f t0 done q obj = .error e
+  | [], t0, done, obj => by rw [modifyAt]; exact hf t0 obj
+  | k :: p, t0, done, obj => by
+    have ih := fun t => modifyAt_error root top f hf p t (done ++ [k])
+    unfold modifyAt
+    cases t0 with
+    | scalar => exact ⟨_, rfl⟩
+    | array e len =>
+      simp only
+      repeat' split
+      all_goals first | exact ⟨_, rfl⟩ | exact bind_error_of _ (ih _ _)
+    | inc e =>
+      simp only
+      repeat' split
+      all_goals first | exact ⟨_, rfl⟩ | exact bind_error_of _ (ih _ _)
+    | struct ms sz fl =>
+      simp only
+      repeat' split
+      all_goals first | exact ⟨_, rfl⟩ | exact bind_error_of _ (ih _ _)
+    | union ms sz fl =>
+      simp only
+      repeat' split
+      all_goals first | exact ⟨_, rfl⟩ | exact bind_error_of _ (ih _ _)
+
+theorem storeTok_not_startable (root : Ty) (top : Bool) (tok : ITok) (q : List Nat) (h : startable tok = false) (t : Ty) (old : Init) :
+    ∃ e, storeTok root top tok q t old = .error e := by
+  cases tok <;> simp [startable] at h <;> cases t <;> exact ⟨_, rfl⟩
+
+theorem initItem_not_startable (g : Nat) (root : Ty) (top : Bool) (obj : Init) (p : List Nat) (tok : ITok) (r : List ITok) (fl : Flags)
+    (h : startable tok = false) : ∃ e, initItem g root top obj [p] (tok :: r) fl = .error e := by
+  have hb : tok ≠ .lbrace := by intro he; subst he; simp [startable] at h
+  rw [initItem_tok _ _ _ _ _ _ _ _ hb]
+  cases hd : descend root top tok (p.length + root.nodes + 2) p with
+  | error e => exact ⟨e, rfl⟩
+  | ok q =>
+    obtain ⟨e, he⟩ := modifyAt_error root top (storeTok root top tok q) (storeTok_not_startable root top tok q h) q root [] obj
+    exact ⟨e, by rw [ok_bind, he]; rfl⟩
+
+
+/-! ### `touched`, `exprAbove` -/
+
+theorem touched_union_some {cs : List Init} {k : Nat} {c : Init} (e : Option Expr) (m : Nat) (p : List Nat)
+    (h : cs[k]? = some c) : touched (.union e (some m) cs) (k :: p) = if m = k then touched c p else true := by
+  rw [touched]; simp [h]
+
+theorem touched_other {obj : Init} {k : Nat} {c : Init} (p : List Nat) (h : obj.children[k]? = some c)
+    (hn : ∀ e m cs, obj ≠ .union e (some m) cs) : touched obj (k :: p) = touched c p := by
+  rw [touched]
+  · simp [h]
+  · intro e m cs he; exact hn e m cs he
+
+/-- a subobject that no initializer has touched holds no expression, and reaching it switches no union -/
+theorem touched_false : ∀ (p : List Nat) (obj c : Init), getAt obj p = some c → touched obj p = false →
+    hasExpr c = false ∧ switchesUnion obj p = false
+  | [], obj, c, hg, ht => by
+    simp [getAt] at hg; subst hg
+    rw [touched] at ht
+    exact ⟨ht, by rw [switchesUnion]⟩
+  | k :: p, obj, c, hg, ht => by
+    obtain ⟨ck, hk, hg'⟩ := getAt_cons_some hg
+    by_cases hu : ∃ e m cs, obj = .union e (some m) cs
+    · obtain ⟨e, m, cs, rfl⟩ := hu
+      simp only [Init.children] at hk
+      rw [touched_union_some e m p hk] at ht
+      rw [switchesUnion_union_some e m p hk]
+      split at ht
+      · rename_i hmk
+        simp only [hmk, ↓reduceIte]
+        exact touched_false p ck c hg' ht
+      · cases ht
+    · have hn : ∀ e m cs, obj ≠ .union e (some m) cs := fun e m cs he => hu ⟨e, m, cs, he⟩
+      rw [touched_other p hk hn] at ht
+      rw [switchesUnion_other p hk hn]
+      exact touched_false p ck c hg' ht
+
+theorem exprAbove_cons {obj : Init} {k : Nat} {c : Init} (p : List Nat) (h : obj.children[k]? = some c) :
+    exprAbove obj (k :: p) = (hasAggExpr obj || exprAbove c p) := by
+  rw [exprAbove]; simp [h]
+
+theorem exprAbove_of_agg (obj : Init) (k : Nat) (p : List Nat) (h : hasAggExpr obj = true) : exprAbove obj (k :: p) = true := by
+  rw [exprAbove]; simp [h]
+
+theorem exprAbove_append : ∀ (p q : List Nat) (obj c : Init), getAt obj p = some c →
+    exprAbove obj (p ++ q) = (exprAbove obj p || exprAbove c q)
+  | [], q, obj, c, hg => by
+    simp [getAt] at hg; subst hg
+    simp [exprAbove]
+  | k :: p, q, obj, c, hg => by
+    obtain ⟨ck, hk, hg'⟩ := getAt_cons_some hg
+    rw [List.cons_append, exprAbove_cons _ hk, exprAbove_cons _ hk, exprAbove_append p q ck c hg', Bool.or_assoc]
+
+/-- below a node that carries an aggregate-valued expression every path is flagged -/
+theorem exprAbove_below {obj c : Init} {p : List Nat} (hg : getAt obj p = some c) (ha : hasAggExpr c = true) (k : Nat) (s : List Nat) :
+    exprAbove obj (p ++ k :: s) = true := by
+  rw [exprAbove_append p (k :: s) obj c hg, exprAbove_of_agg c k s ha, Bool.or_true]
+
+/-- no aggregate-valued expression above `p ++ k :: s` ⇒ none at `p` -/
+theorem hasAggExpr_of_exprAbove {obj c : Init} {p : List Nat} {k : Nat} {s : List Nat} (hg : getAt obj p = some c)
+    (h : exprAbove obj (p ++ k :: s) = false) : hasAggExpr c = false := by
+  cases ha : hasAggExpr c with
+  | false => rfl
+  | true => rw [exprAbove_below hg ha] at h; cases h
+
+/-! ### `skipExcess`: fuel -/
+
+theorem skipExcess_le (toks : List ITok) : ∀ (f f' : Nat), f ≤ f' → Le (skipExcess f toks) (skipExcess f' toks) := by
+  intro f f' h
+  induction h with
+  | refl => exact Le.refl _
+  | step _ ih => exact ih.trans (skipExcess_mono _ toks)
+
+theorem skipExcess_fuel {toks r r' : List ITok} {f f' : Nat} (h : skipExcess f toks = .ok r) (h' : skipExcess f' toks = .ok r') :
+    r = r' := by
+  have h1 := skipExcess_le toks f (max f f') (Nat.le_max_left _ _)
+  have h2 := skipExcess_le toks f' (max f f') (Nat.le_max_right _ _)
+  rcases h1 with h1 | h1
+  · rw [h] at h1; cases h1
+  · rcases h2 with h2 | h2
+    · rw [h'] at h2; cases h2
+    · rw [h] at h1; rw [h', ← h1] at h2; cases h2; rfl
+
+
+/-! ### designator lists -/
+
+/-- the designated subobjects are known; one initializer follows -/
+def afterDesg (g : Nat) (root : Ty) (top : Bool) (obj : Init) (fl : Flags) (x : Except Fail (List (List Nat) × List ITok)) :
+    Except Fail Result :=
+  x >>= fun pt => initItem g root top obj pt.1 pt.2 fl
+
+theorem desigPaths_eq (root : Ty) (top : Bool) (f : Nat) (ps : List (List Nat)) (r : List ITok) :
+    desigPaths root top (f+1) ps (.eq :: r) = .ok (ps, r) := by
+  rw [desigPaths]
+
+theorem desigPaths_plain (root : Ty) (top : Bool) (f : Nat) (ps : List (List Nat)) (toks : List ITok)
+    (h : isDesg toks = false) (h2 : ∀ r, toks ≠ .eq :: r) : desigPaths root top (f+1) ps toks = .ok (ps, toks) := by
+  rw [desigPaths]
+  · intro n r hr; subst hr; simp [isDesg] at h
+  · intro a r hr; subst hr; simp [isDesg] at h
+  · intro a b r hr; subst hr; simp [isDesg] at h
+  · intro r hr; exact h2 r hr
+
+theorem desigPaths_dot {root : Ty} {top : Bool} {p : List Nat} {t : Ty} {n : String} {mp : List Nat} (f : Nat) (r : List ITok)
+    (ht : subTy root p = some t) (hm : findMember t n = some mp) (ha : t.isAgg = true) :
+    desigPaths root top (f+1) [p] (.dot n :: r) = desigPaths root top f [p ++ mp] r := by
+  rw [desigPaths]; simp [headTy, ht, hm, ha]
+
+theorem desigPaths_idx_arr {root : Ty} {top : Bool} {p : List Nat} {e : Ty} {len : Nat} {a : Int} (f : Nat) (r : List ITok)
+    (ht : subTy root p = some (.array e len)) (hg : growable root top p = false) (h0 : 0 ≤ a) (h1 : a < len) :
+    desigPaths root top (f+1) [p] (.idx a :: r) = desigPaths root top f [p ++ [a.toNat]] r := by
+  rw [desigPaths]
+  simp [headTy, growableAt, ht, hg]
+  intro hc; exfalso; omega
+
+theorem desigPaths_idx_inc {root : Ty} {top : Bool} {p : List Nat} {e : Ty} {a : Int} (f : Nat) (r : List ITok)
+    (ht : subTy root p = some (.inc e)) (h0 : 0 ≤ a) :
+    desigPaths root top (f+1) [p] (.idx a :: r) = desigPaths root top f [p ++ [a.toNat]] r := by
+  rw [desigPaths]
+  have h3 : ¬ (a < 0) := by omega
+  simp [headTy, ht, h3]
+
+theorem desigPaths_range_arr {root : Ty} {top : Bool} {p : List Nat} {e : Ty} {len : Nat} {a b : Int} (f : Nat) (r : List ITok)
+    (ht : subTy root p = some (.array e len)) (hg : growable root top p = false) (h0 : 0 ≤ a) (h1 : a ≤ b) (h2 : b < len) :
+    desigPaths root top (f+1) [p] (.range a b :: r) =
+      desigPaths root top f ((List.range' a.toNat (b.toNat + 1 - a.toNat)).map (fun k => p ++ [k])) r := by
+  rw [desigPaths]
+  simp [headTy, growableAt, ht, hg]
+  intro hc; exfalso; omega
+
+theorem desigPaths_range_inc {root : Ty} {top : Bool} {p : List Nat} {e : Ty} {a b : Int} (f : Nat) (r : List ITok)
+    (ht : subTy root p = some (.inc e)) (h0 : 0 ≤ a) (h1 : a ≤ b) :
+    desigPaths root top (f+1) [p] (.range a b :: r) =
+      desigPaths root top f ((List.range' a.toNat (b.toNat + 1 - a.toNat)).map (fun k => p ++ [k])) r := by
+  rw [desigPaths]
+  have h3 : ¬ (a < 0 ∨ b < a) := by omega
+  simp [headTy, ht, h3]
+
+/-- designators only extend paths, and never lose one -/
+theorem desigPaths_inv (root : Ty) (top : Bool) : ∀ (f : Nat) (ps : List (List Nat)) (toks : List ITok) (ps' : List (List Nat))
+    (t' : List ITok), desigPaths root top f ps toks = .ok (ps', t') →
+    ps.length ≤ ps'.length ∧ ∀ q ∈ ps', ∃ p ∈ ps, ∃ s, q = p ++ s
+  | 0, _, _, _, _, h => by cases h
+  | f+1, ps, toks, ps', t', h => by
+    have base : ps.length ≤ ps.length ∧ ∀ q ∈ ps, ∃ p ∈ ps, ∃ s, q = p ++ s :=
+      ⟨Nat.le_refl _, fun q hq => ⟨q, hq, [], by simp⟩⟩
+    have mapc : ∀ (x : List Nat) (r : List ITok), desigPaths root top f (ps.map (· ++ x)) r = .ok (ps', t') →
+        ps.length ≤ ps'.length ∧ ∀ q ∈ ps', ∃ p ∈ ps, ∃ s, q = p ++ s := by
+      intro x r hx
+      obtain ⟨h1, h2⟩ := desigPaths_inv root top f _ _ ps' t' hx
+      refine ⟨by simpa using h1, fun q hq => ?_⟩
+      obtain ⟨p', hp', s, hs⟩ := h2 q hq
+      simp only [List.mem_map] at hp'
+      obtain ⟨p, hp, rfl⟩ := hp'
+      exact ⟨p, hp, x ++ s, by simp [hs]⟩
+    have flatc : ∀ (a b : Int) (r : List ITok), ¬ (b < a) → ¬ (a < 0) →
+        desigPaths root top f (ps.flatMap (fun p => (List.range' a.toNat (b.toNat + 1 - a.toNat)).map (fun k => p ++ [k]))) r =
+          .ok (ps', t') →
+        ps.length ≤ ps'.length ∧ ∀ q ∈ ps', ∃ p ∈ ps, ∃ s, q = p ++ s := by
+      intro a b r hab ha hx
+      obtain ⟨h1, h2⟩ := desigPaths_inv root top f _ _ ps' t' hx
+      refine ⟨Nat.le_trans ?_ h1, fun q hq => ?_⟩
+      · have hn : 1 ≤ b.toNat + 1 - a.toNat := by omega
+        clear h1 h2 hx base mapc h
+        induction ps with
+        | nil => simp
+        | cons p ps ih => simp only [List.flatMap_cons, List.length_append, List.length_map, List.length_range', List.length_cons]; omega
+      · obtain ⟨p', hp', s, hs⟩ := h2 q hq
+        simp only [List.mem_flatMap, List.mem_map] at hp'
+        obtain ⟨p, hp, k, _, rfl⟩ := hp'
+        exact ⟨p, hp, k :: s, by simp [hs]⟩
+    unfold desigPaths at h
+    split at h
+    · -- .dot
+      split at h
+      · split at h
+        · split at h
+          · exact mapc _ _ h
+          · cases h
+        · split at h <;> cases h
+      · cases h
+    · -- .idx
+      split at h
+      · split at h
+        · cases h
+        · exact mapc _ _ h
+      · split at h
+        · cases h
+        · exact mapc _ _ h
+      · cases h
+    · -- .range
+      split at h
+      · split at h
+        · cases h
+        · rename_i hc
+          exact flatc _ _ _ (by omega) (by omega) h
+      · split at h
+        · cases h
+        · rename_i hc
+          exact flatc _ _ _ (by omega) (by omega) h
+      · cases h
+    · cases h; exact base
+    · cases h; exact base
+
+
+/-! ### runs that enter a region -/
+
+theorem mapM_cons_ok {α β : Type} {f : α → Except Fail β} {a : α} {as : List α} {bs : List β}
+    (h : (a :: as).mapM f = .ok bs) : ∃ b bs', f a = .ok b ∧ as.mapM f = .ok bs' ∧ bs = b :: bs' := by
+  rw [List.mapM_cons] at h
+  obtain ⟨b, hb, h⟩ := bind_eq_ok h
+  obtain ⟨bs', hbs, h⟩ := bind_eq_ok h
+  cases h
+  exact ⟨b, bs', hb, hbs, rfl⟩
+
+theorem initItem_wide_dirty {g : Nat} {root : Ty} {top : Bool} {obj : Init} {paths : List (List Nat)} {toks : List ITok} {fl : Flags}
+    {res : Result} (hw : 1 < paths.length) (hr : initItem g root top obj paths toks fl = .ok res) : res.fl.clean = false := by
+  cases hc : res.fl.clean with
+  | false => rfl
+  | true =>
+    exfalso
+    unfold initItem initItemWith at hr
+    split at hr
+    · simp at hw
+    · split at hr
+      · obtain ⟨_, _, hr⟩ := bind_eq_ok hr
+        obtain ⟨_, _, hr⟩ := bind_eq_ok hr
+        obtain ⟨_, _, hr⟩ := bind_eq_ok hr
+        have := (Flags.clean_mk (Flags.clean_join (Flags.clean_join (initList_clean _ _ _ _ _ _ _ _ _ hr hc)).1).2).2.2
+        simp only [gt_iff_lt, decide_eq_false_iff_not] at this
+        exact this hw
+      · obtain ⟨_, _, hr⟩ := bind_eq_ok hr
+        obtain ⟨_, _, hr⟩ := bind_eq_ok hr
+        have := (Flags.clean_mk (Flags.clean_join (initList_clean _ _ _ _ _ _ _ _ _ hr hc)).2).2.2
+        simp only [gt_iff_lt, decide_eq_false_iff_not] at this
+        exact this hw
+      · cases hr
+
+theorem initItem_xover_dirty {g : Nat} {root : Ty} {top : Bool} {obj : Init} {paths : List (List Nat)} {toks : List ITok} {fl : Flags}
+    {res : Result} (hne : paths ≠ []) (hx : ∀ q ∈ paths, ∀ s, exprAbove obj (q ++ s) = true)
+    (hr : initItem g root top obj paths toks fl = .ok res) : res.fl.clean = false := by
+  cases hc : res.fl.clean with
+  | false => rfl
+  | true =>
+    exfalso
+    unfold initItem initItemWith at hr
+    split at hr
+    · exact hne rfl
+    · rename_i p0 rest
+      have h0 : exprAbove obj p0 = true := by simpa using hx p0 (by simp) []
+      split at hr
+      · obtain ⟨_, _, hr⟩ := bind_eq_ok hr
+        obtain ⟨_, _, hr⟩ := bind_eq_ok hr
+        obtain ⟨_, _, hr⟩ := bind_eq_ok hr
+        have := (Flags.clean_mk (Flags.clean_join (Flags.clean_join (initList_clean _ _ _ _ _ _ _ _ _ hr hc)).1).2).2.1
+        simp [h0] at this
+      · rename_i tok r
+        obtain ⟨targets, ht, hr⟩ := bind_eq_ok hr
+        obtain ⟨_, _, hr⟩ := bind_eq_ok hr
+        obtain ⟨q0, ts, hq0, _, rfl⟩ := mapM_cons_ok ht
+        obtain ⟨s, rfl⟩ := descend_prefix _ _ _ _ _ _ hq0
+        have := (Flags.clean_mk (Flags.clean_join (initList_clean _ _ _ _ _ _ _ _ _ hr hc)).2).2.1
+        simp [hx p0 (by simp) s] at this
+      · cases hr
+
+theorem afterDesg_wide_dirty {g : Nat} {root : Ty} {top : Bool} {obj : Init} {fl : Flags} {f : Nat} {ps : List (List Nat)}
+    {toks : List ITok} {res : Result} (hw : 1 < ps.length)
+    (hr : afterDesg g root top obj fl (desigPaths root top f ps toks) = .ok res) : res.fl.clean = false := by
+  unfold afterDesg at hr
+  obtain ⟨⟨ps', t'⟩, hd, hr⟩ := bind_eq_ok hr
+  have := (desigPaths_inv root top f ps toks ps' t' hd).1
+  exact initItem_wide_dirty (by simp only; omega) hr
+
+theorem afterDesg_xover_dirty {g : Nat} {root : Ty} {top : Bool} {obj : Init} {fl : Flags} {f : Nat} {p : List Nat} {c : Init}
+    {k : Nat} {s : List Nat} {toks : List ITok} {res : Result} (hg : getAt obj p = some c) (ha : hasAggExpr c = true)
+    (hr : afterDesg g root top obj fl (desigPaths root top f [p ++ k :: s] toks) = .ok res) : res.fl.clean = false := by
+  unfold afterDesg at hr
+  obtain ⟨⟨ps', t'⟩, hd, hr⟩ := bind_eq_ok hr
+  obtain ⟨h1, h2⟩ := desigPaths_inv root top f _ toks ps' t' hd
+  refine initItem_xover_dirty ?_ ?_ hr
+  · intro he; simp only at he; rw [he] at h1; simp at h1
+  · intro q hq s'
+    obtain ⟨p', hp', s2, rfl⟩ := h2 q hq
+    simp only [List.mem_singleton] at hp'
+    subst hp'
+    rw [List.append_assoc, List.append_assoc, List.cons_append]
+    exact exprAbove_below hg ha k _
 
 end ChibiVerif.InitSpec
